@@ -552,7 +552,7 @@ def run(ctx):
         cfg = gen_cfg(ctx, "sim-" + kind, kinds=MC_KIND[kind], ars=sim_ars, nxs=[0, 1, 2], k=5,
                       ops="OpsSimInsEr" if can_erase(kind) else "OpsSimIns")
         core.tlc(ctx, "DispatchMC", cfg, name="s2c-simulate-" + kind,
-                 simulate="file=%s/t,num=%d" % (simdir, 40 if q else 300),
+                 simulate="file=%s/t,num=%d" % (simdir, 40 if q else 150),
                  extra=["-depth", "25" if q else "40", "-seed", str(ctx.seed)], workers=1)
         return sim_scripts(simdir)
     with ThreadPoolExecutor(max_workers=4) as ex:
@@ -574,7 +574,7 @@ def run(ctx):
         lines = random_script(r2_, kind, can_erase(kind), 12 if q else 60, 30, stateless, [1, 2])
         scripts.append(("rndproc-%s" % kind, kind, 12, lines, True))
         if not q:
-            lines = random_script(r2_, kind, can_erase(kind), 150, 40, stateless, [3])
+            lines = random_script(r2_, kind, can_erase(kind), 80, 40, stateless, [3])
             scripts.append(("rnd3-%s" % kind, kind, 3, lines, False))
 
     # ---- probes for open known findings (tiny scripts that must still fail)
@@ -633,7 +633,7 @@ def run(ctx):
 
     # ---- advisory: class indices / exception types of the fast dispatcher against L2
     if not ctx.violations:
-        sel = fast_traces if not q else fast_traces[:3]
+        sel = fast_traces[:3] if q else fast_traces[:15]        # advisory only: a sample is enough
         nd = 0
 
         def one(tp):
@@ -657,7 +657,7 @@ def run(ctx):
              "static-dispatcher and visitor menus; TLC simulation walks and seeded random histories over 5 classes, arities 1..%d. "
              "A case is one call with its outcome and the probed table compared by TLC."
              % ("2 classes (arity 1, 2)" if q else "3 classes with <= 2 registered tuples (arity 1..3)", 4 if q else 5,
-                "" if q else " (length 3 at arity 1 and 3)", 2 if q else 3, 2 if q else 3),
+                "" if q else " (2 classes, length 4, at arity 1 and 3)", 2 if q else 3, 2 if q else 3),
         assumptions=["handlers, executors and visitors are test fixtures that record what they are given (harness/dispatch/driver.cpp)",
                      "one fast dispatcher per class hierarchy at a time (class indices are reset through the public accessor between executions; "
                      "a share of the random executions runs one per process)",
